@@ -63,6 +63,12 @@ pub mod ext_time {
     pub assume_specification [Instant::now] () -> (r: Instant)
         ensures clock_read(r);
     pub assume_specification [Instant::elapsed] (i: &Instant) -> (r: Duration);
+    /// ASSUMED (std): the time from `earlier` to `i`, zero if `earlier` is later
+    pub open spec fn sat_since(later: Instant, earlier: Instant) -> int {
+        if nanos(later) >= nanos(earlier) { nanos(later) - nanos(earlier) } else { 0 }
+    }
+    pub assume_specification [Instant::saturating_duration_since] (i: &Instant, earlier: Instant) -> (r: Duration)
+        ensures dur_ns(r) == sat_since(*i, earlier);
 
     // ---- BinaryHeap
     pub uninterp spec fn heap_view<T, A: std::alloc::Allocator>(h: &BinaryHeap<T, A>) -> Multiset<T>;
